@@ -44,4 +44,12 @@ PROPS = {
         lean_core=["Props.C06"], lean_code=[], gen_funcs=[], harness="c06",
         assumptions=["partial: flips of a continuation bit of the VLQ height are covered by execution only (see Props/C06.lean)",
                      "collisions of sha256d / blake2 / scrypt appear as explicit disjuncts, nothing is assumed of them"]),
+    "C09": dict(
+        lean_core=["Props.C13", "Props.C09"], lean_code=[], gen_funcs=[], harness="c09",
+        assumptions=["'outside bulk download' = in_response_to = 0 in the message header",
+                     "store modelled as insert-or-ignore by id; the real SQLite store is exercised by the correspondence",
+                     "Inv: a node that only ever received unsolicited blocks (served state = last validated, empty write buffer)"]),
+    "C13": dict(
+        lean_core=["Props.C13"], lean_code=[], gen_funcs=[], harness="c13",
+        assumptions=["_cleanup catches only ValidateTransactionError; other exceptions cannot arise for a pooled transaction and are treated as eviction in the model"]),
 }
